@@ -217,20 +217,21 @@ func (r *Router) ListActiveServices() ServiceDescriptionMap {
 
 	r.withReadLock(func() error {
 		for name, service := range r.services.All() {
-			if service.active != nil {
+			active, _, _ := service.loadBalancers()
+			if active != nil {
 				host := strings.Join(service.options.Hosts, ",")
 				if host == "" {
 					host = "*"
 				}
 
 				path := strings.Join(service.options.PathPrefixes, ",")
-				target := strings.Join(service.active.Targets().Names(), ",")
+				target := strings.Join(active.Targets().Names(), ",")
 
 				result[name] = ServiceDescription{
 					Host:   host,
 					Path:   path,
 					Target: target,
-					TLS:    service.options.TLSEnabled,
+					TLS:    service.currentOptions().TLSEnabled,
 					State:  service.pauseController.GetState().String(),
 				}
 			}
